@@ -31,8 +31,14 @@ func (g G) Has(sub string) bool {
 // an unknown state can never contribute to a "stuck" verdict.
 func (g G) Active() bool {
 	s := g.State
+	if strings.HasPrefix(s, "semacquire") {
+		// a goroutine waiting on a runtime-internal semaphore (gcStart, stop-the-world, the
+		// worldsema taken by runtime.Stack itself) also shows "semacquire", and hidden runtime
+		// goroutines will wake it: only a semaphore wait below a sync.* frame counts as parked
+		return !g.Has("sync.")
+	}
 	for _, p := range []string{"chan receive", "chan send", "select", "sync.Mutex.Lock", "sync.RWMutex.",
-		"sync.Cond.Wait", "sync.WaitGroup.Wait", "semacquire", "finalizer wait"} {
+		"sync.Cond.Wait", "sync.WaitGroup.Wait", "finalizer wait"} {
 		if strings.HasPrefix(s, p) {
 			return false
 		}
@@ -180,7 +186,10 @@ func WaitDone(done <-chan struct{}, watchdog time.Duration) (WaitResult, []G) {
 		}
 		if quiescentNow(gs) {
 			streak++
-			if streak >= 3 {
+			if sleep < 500*time.Microsecond {
+				sleep = 500 * time.Microsecond // consecutive samples are spread over several milliseconds
+			}
+			if streak >= 6 {
 				// done cannot be closed any more: every goroutine that could close it is parked.
 				select {
 				case <-done:
